@@ -19,6 +19,39 @@ def exitStatus (compiled ranOk : Bool) : Nat := if compiled && ranOk then 0 else
 /-- `$ARG`: the arguments after the program name, in order, as a table of strings. -/
 def argTable (args : List Bytes) : Val := .tab { major := .str, level := 1 } [] (args.map Val.str)
 
+/-! ### the command line: `bloc [options] program [args…]`
+
+The manual's synopsis: options come first; the first word that is not an option is the program (a file
+name, or `-` for the standard input); EVERYTHING after it belongs to the program, whatever it looks like. -/
+
+/-- A word is read as an option iff it starts with '-' and is not the single dash. (The empty word is not.) -/
+def isOptionWord (w : Bytes) : Bool :=
+  match w with
+  | [] => false
+  | [45] => false
+  | c :: _ => c == 45
+
+/-- The option words: the longest prefix of option words. -/
+def optionWords (argv : List Bytes) : List Bytes := argv.takeWhile isOptionWord
+
+/-- The program word and its arguments: the rest, untouched. -/
+def programWords (argv : List Bytes) : List Bytes := argv.dropWhile isOptionWord
+
+/-- `--out=PATH` → `PATH`. -/
+def outValue (w : Bytes) : Option Bytes :=
+  match w with
+  | 45 :: 45 :: 111 :: 117 :: 116 :: 61 :: v => some v
+  | _ => none
+
+/-- The selected output file: the value of the LAST `--out=` among the option words (empty: standard output). -/
+def outPath (opts : List Bytes) : Bytes :=
+  match (opts.filterMap outValue).getLast? with
+  | some p => p
+  | none => []
+
+/-- "the file minus CRs": what the reader must deliver to the parser, every other byte once and in order. -/
+def withoutCr (file : Bytes) : Bytes := file.filter (· != 13)
+
 /-- ASCII text as bytes (kernel-reducible, unlike `String.toUTF8`). -/
 def str (s : String) : Bytes := s.toList.map fun c => UInt8.ofNat c.toNat
 
